@@ -31,6 +31,7 @@
 //!   F1-attr-value-gt-text-mode, F2-self-closing-foreign-root, F11-foreign-root-inside-foreign,
 //!   F12-integration-point-named-end-tag            — known shapes (see docs/pkg-ref.md)
 //!   token-stream-differs                            — any other difference of the main comparison
+//!   R2-cdata-directly-in-integration-point          — finding R2 (see docs/pkg-ref.md)
 //!   strict-fails-on-unfinished-tag                 — finding R1 (tag-scanner mode only, see docs/pkg-ref.md)
 //!   end-tags-not-subsequence, strict-failed-unexpectedly, strict-not-failed, ambiguity-at-wrong-place,
 //!   strict-differs-from-nonstrict, chunking-changes-tokens, unexpected-error
@@ -507,7 +508,7 @@ fn known_shapes(h: &[HTok]) -> Vec<(usize, &'static str)> {
 }
 
 /// name the shape of a divergence that starts at html5ever token index `div` (known findings first)
-fn classify(h: &[HTok], div: usize, input: &[u8]) -> &'static str {
+fn classify(h: &[HTok], div: usize, input: &[u8], pair: Option<(&Tok, Option<&Tok>, Option<&Tok>)>) -> &'static str {
     let upto = &h[..(div + 1).min(h.len())];
     let last_start = upto.iter().rev().skip(1).find_map(|t| match &t.tok {
         Tok::Start { name, .. } => Some(name.as_str()),
@@ -518,6 +519,19 @@ fn classify(h: &[HTok], div: usize, input: &[u8]) -> &'static str {
     }
     if let Some((_, tag)) = known_shapes(h).into_iter().find(|(i, _)| *i <= div) {
         return tag;
+    }
+    // finding R2: `<![CDATA[` directly inside an integration-point element: a CDATA section for the standard
+    // (the adjusted current node is the foreign element), a bogus comment for lol-html
+    match pair {
+        // (html5ever has the section's text there, or — empty section — whatever token comes next)
+        Some((Tok::Comment(c), _, _)) if c.starts_with("[CDATA[") => {
+            return "R2-cdata-directly-in-integration-point";
+        }
+        // text before the CDATA section: html5ever's text run continues where lol-html starts a comment
+        Some((Tok::Text(a), Some(Tok::Text(b)), Some(Tok::Comment(c)))) if c.starts_with("[CDATA[") && b.starts_with(a.as_str()) => {
+            return "R2-cdata-directly-in-integration-point";
+        }
+        _ => {}
     }
     "token-stream-differs"
 }
@@ -626,13 +640,24 @@ pub fn run(line: &str) -> String {
                 // token difference
                 let prefix_only = matches!(lend, LolEnd::Ambiguity(_)) && d == pl.len() && expected.is_none();
                 if !prefix_only {
-                    // in a single-kind mode the place of the divergence in the full stream is unknown
-                    let hidx = if mode == Mode::All {
-                        ph.get(d).map(|t| t.1).unwrap_or(hcut.len().saturating_sub(1))
+                    // classify on the full streams (in a single-kind mode the place of the divergence in the
+                    // full stream is not visible): same tag whatever the capture set
+                    let (pl_all, ph_all) = if mode == Mode::All {
+                        (pl.clone(), ph.clone())
                     } else {
-                        h.len()
+                        let (l_all, _) = run_lol(&bytes, &cuts, true, Mode::All);
+                        (project(&l_all, Mode::All), project(hcut, Mode::All))
                     };
-                    let tag = classify(&h, hidx, &bytes);
+                    let tag = match first_diff(&pl_all, &ph_all) {
+                        Some(da) => {
+                            // the divergent entry may be a text run merged across dropped end tags: look at
+                            // every html5ever token up to the start of the next entry
+                            let hidx = ph_all.get(da + 1).map(|t| t.1).unwrap_or(hcut.len());
+                            let pair = pl_all.get(da).map(|a| (&a.0, ph_all.get(da).map(|t| &t.0), pl_all.get(da + 1).map(|t| &t.0)));
+                            classify(&h, hidx, &bytes, pair)
+                        }
+                        None => "token-stream-differs-in-single-kind-mode-only",
+                    };
                     oracle.push(format!(
                         "{tag} at {d}: lol={} h5={} (prev {})",
                         show_at(&pl, d),
@@ -641,7 +666,7 @@ pub fn run(line: &str) -> String {
                     ));
                 }
             } else if (mode == Mode::All || mode == Mode::El) && !is_subsequence(&end_tags(&l), &end_tags(hcut)) {
-                let tag = match classify(&h, h.len(), &bytes) {
+                let tag = match classify(&h, h.len(), &bytes, None) {
                     "token-stream-differs" => "end-tags-not-subsequence",
                     known => known,
                 };
